@@ -765,7 +765,9 @@ def run(check, unrecognised):
 				# the oracle and the theorem-carrying model must agree; a difference means the holes no longer have the intended values
 				check.disagree('Resolve-model-vs-property-oracle', {'name': case['name'], 'root': case['root']}, canonical(*expected), model)
 			planted = reachable_faults(case)
-			if planted and expected[1] == 2 and FAULT_BY_KEY[planted[0]][4] not in result.get('console', ''):
+			# (a post-expansion message can be masked by an unrelated pre-expansion error of a random graph: only where it must show)
+			must_show = planted and (case['directed'] or FAULT_BY_KEY[planted[0]][1] == 'pre')
+			if must_show and expected[1] == 2 and FAULT_BY_KEY[planted[0]][4] not in result.get('console', ''):
 				# the catalogue is tied to AstValidator's messages: an entry that no longer triggers its family is a stale catalogue
 				check.disagree('fault-catalogue-vs-AstValidator', {'name': case['name'], 'fault': planted[0]},
 					result.get('console', '')[-300:], FAULT_BY_KEY[planted[0]][4])
